@@ -9,9 +9,9 @@ PLAN = {
     "C05": [("A", 40000, 3000000, {})],
     "C06": [("A", 40000, 3000000, {}), ("B", 2000, 200000, {})],
     "C07": [("A", 20000, 1500000, {})],
-    "C08": [("B", 4000, 400000, {})],
-    "C09": [("B", 4000, 400000, {})],
-    "C10": [("B", 4000, 400000, {})],
+    "C08": [("B", 4000, 400000, {"p_chaos_consumer": 0.4})],
+    "C09": [("B", 4000, 400000, {"p_chaos_consumer": 0.45})],
+    "C10": [("B", 4000, 400000, {"p_chaos_consumer": 0.4})],
     "C11": [("A", 30000, 2500000, {}), ("B", 1500, 150000, {})],
     "C12": [("BELT", 30000, 3000000, {}), ("B", 1500, 150000, {})],
     "C13": [("BELT", 30000, 3000000, {})],
